@@ -30,7 +30,7 @@ OUTPUTS = [
 STRESS_INIS = [
     ("identity-data-sources", 3, 150, 600,
      b'[snoopy]\noutput = file:@D@/out.log\nmessage_format = "%{username} %{eusername} %{group} %{egroup} %{tty_username} %{login} %{hostname} %{filename}"\n'),
-    ("datetime", 6, 600, 4000, b'[snoopy]\noutput = devnull\nmessage_format = "%{datetime} %{filename}"\n'),
+    ("datetime", 6, 600, 12000, b'[snoopy]\noutput = devnull\nmessage_format = "%{datetime} %{filename}"\n'),
     ("error-in-every-call", 6, 500, 3000,
      b'[snoopy]\noutput = devnull\nerror_logging = yes\nlog_message_max_length = 255\nmessage_format = "%{snoopy_literal:' + b"L" * 300 + b'}%{cmdline}"\n'),
 ]
@@ -176,7 +176,7 @@ def check(run):
                               {"failing_input": {"mode": "sigfork", "lock_window": k, "output": "file"}, "mode": "sigfork", "window": k, "ini": OUTPUTS[0][1].decode(), "observed": o})
         # ---------------------------------------------------------------- fork stress: forks taken at arbitrary instants, also inside libc calls no interposer sees
         for (sname, nthr, fq, ft, sini) in STRESS_INIS:
-            forks = fq if quick else ft
+            forks = fq if (quick and ok) else ft          # a broken obligation widens the search
             r = run_mt(run, lib, "forkstress", nthr, 1, str(forks), sini, "forkstress-" + sname, timeout=600)
             fs = [f for f in r["trace"]["other"] if f[0] == "forkstress"]
             done = [f for f in fs if f[1] == "done"]
